@@ -217,7 +217,7 @@ class Harness:
                      "detail": [list(map(str, a))[:3], list(map(str, b))[:3]], "model": copy.deepcopy(self.model)}]
         if a[0] == "ok":
             pa, pb = observe.plain(a[1]), observe.plain(b[1])
-            if not observe.plain_eq(pa, pb):
+            if not observe.plain_identical(pa, pb):  # same configuration: same construction, number types included
                 return [{"sub": "validate", "kind": "stale-result", "value": value,
                          "detail": [canon(pa), canon(pb)], "model": copy.deepcopy(self.model)}]
         if self.n_reconfig and a[0] in ("ok", "reject"):
@@ -305,6 +305,35 @@ def lookalike_recipes(draw):
         {"name": "b", "source": None, "required": False, "element": leaf(3)}]}
 
 
+@st.composite
+def default_flip_recipes(draw):
+    """A defaulted element next to ONE constraint that decides whether the default is valid for it; reassigning the
+    constraint flips that. An omitted value must then be treated as the configuration of the moment says (converted
+    when valid, handed back as-is when not)."""
+    leaf = draw(st.sampled_from([
+        {"kind": "Number", "kw": {"default": 5, "minimum": 10}},
+        {"kind": "Number", "kw": {"default": 5, "minimum": 0}},
+        {"kind": "Number", "kw": {"default": 4, "multipleOf": 3}},
+        {"kind": "String", "kw": {"default": "ab", "minLength": 5}},
+        {"kind": "Array", "kw": {"default": [1, 2], "minItems": 3}, "sub": {"items": {"id": 7, "kind": "Number", "kw": {}}}},
+        {"kind": "Array", "kw": {"default": [1], "maxItems": 0}, "sub": {"items": {"id": 7, "kind": "Number", "kw": {}}}},
+        {"kind": "Element", "kw": {"default": {"n": 1}, "required": ["zz"]},
+         "props": [{"name": "n", "source": None, "required": False, "element": {"id": 8, "kind": "Number", "kw": {}}}]},
+    ]))
+    leaf = dict(copy.deepcopy(leaf), id=2)
+    holder = draw(st.sampled_from(["Element", "Object"]))
+    node = {"id": 1, "kind": holder, "kw": {}, "props": [
+        {"name": "a", "source": draw(st.sampled_from([None, "a-b"])), "required": False, "element": leaf},
+        {"name": "b", "source": None, "required": False, "element": {"id": 3, "kind": "Integer", "kw": {}}}]}
+    if holder == "Object":
+        node["name"] = "Holder"
+    return node
+
+
+FLIPS = {"minimum": [0, 10, -3, 5], "multipleOf": [2, 3, 4, 1], "minLength": [0, 2, 5], "minItems": [0, 2, 3],
+         "maxItems": [0, 1, 5], "required": [[], ["zz"], ["n"]]}
+
+
 class Machine(RuleBasedStateMachine):
     _sink = None
     _stats = None
@@ -314,8 +343,8 @@ class Machine(RuleBasedStateMachine):
         self.h = None
         self.counter = 0
 
-    @initialize(recipe=st.one_of(R.recipes(CFG), R.recipes(CFG), R.recipes(CFG), overlap_recipes(), lookalike_recipes()),
-                data=st.data())
+    @initialize(recipe=st.one_of(R.recipes(CFG), R.recipes(CFG), R.recipes(CFG), overlap_recipes(), lookalike_recipes(),
+                                 default_flip_recipes()), data=st.data())
     def init(self, recipe, data):
         self.h = Harness(recipe)
         # every history starts with validations, so that later reconfigurations
@@ -389,6 +418,21 @@ class Machine(RuleBasedStateMachine):
                 elif isinstance(base, list):
                     self._do({"op": "validate", "value": [lit]})
         self._aimed_validate(data)
+
+    @rule(data=st.data())
+    def flip_default_validity(self, data):
+        """Reassign the constraint next to a default, then validate values that OMIT the defaulted member."""
+        idx = R.index(self.h.model)
+        cands = [(i, k) for i in self._nodes() for k in FLIPS
+                 if "default" in idx[i].get("kw", {}) and k in R.ALLOWED_KW[idx[i]["kind"]]
+                 and (k in idx[i]["kw"] or k in ("minimum", "minLength", "minItems"))]
+        if not cands:
+            return
+        nid, kw = data.draw(st.sampled_from(cands))
+        self._do({"op": "validate", "value": {}})
+        self._do({"op": "set_kw", "node": nid, "kw": kw, "value": data.draw(st.sampled_from(FLIPS[kw]))})
+        for value in ({}, {"b": 1}, [], [{}]):
+            self._do({"op": "validate", "value": value})
 
     @rule(data=st.data())
     def set_sub(self, data):
